@@ -339,12 +339,11 @@ Proof. destruct o as [| |y]; try discriminate. cbn. intros H. apply Nat.eqb_eq i
 
 (* clause 1: every function is entered at most once, a nil entry never; once the call has returned every
    function has been entered exactly once *)
-Theorem each_nonnil_fn_once es :
-  let s := run es in
+Lemma each_nonnil_fn_once_inv s : Inv s ->
   (forall i w, nth_error (wks s) i = Some w -> went w <= 1 /\ (wp w = WNone -> went w = 0)) /\
   (forall o i w, cp s = CRet o -> nth_error (wks s) i = Some w -> wp w <> WNone -> went w = 1).
 Proof.
-  cbn. destruct (run_inv es) as (_ & Hbad & _ & _ & Hcp). split.
+  intros (_ & Hbad & _ & _ & Hcp). split.
   - intros i w G. pose proof (cnt_nth_false _ _ _ _ Hbad G) as Hb. unfold wbad in Hb.
     apply negb_false_iff, Nat.eqb_eq in Hb. rewrite Hb. split; [destruct (wp w); lia | now intros ->].
   - intros o i w Ecp G Hn. rewrite Ecp in Hcp. destruct Hcp as (_ & Hid & _).
@@ -354,21 +353,19 @@ Proof.
 Qed.
 
 (* clause 2 *)
-Theorem nil_only_if_all_nil es :
-  let s := run es in
+Lemma nil_only_if_all_nil_inv s : Inv s ->
   cp s = CRet ONil -> forall i w, nth_error (wks s) i = Some w -> wp w = WNone \/ wp w = WDone ONil.
 Proof.
-  cbn. intros Ecp i w G. destruct (run_inv es) as (_ & _ & _ & _ & Hcp). rewrite Ecp in Hcp. destruct Hcp as (HR & _).
+  intros (_ & _ & _ & _ & Hcp) Ecp i w G. rewrite Ecp in Hcp. destruct Hcp as (HR & _).
   pose proof (cnt_nth_false _ _ _ _ HR G) as Hb. unfold notnilres in Hb.
   destruct (wp w) as [| | |o|o]; try discriminate; [now left | destruct o; try discriminate; now right].
 Qed.
 
 (* clause 3, first half: an error result is an error some function returned (and recorded) *)
-Theorem error_is_some_fn_error es x :
-  let s := run es in
+Lemma error_is_some_fn_error_inv s x : Inv s ->
   cp s = CRet (OErr x) -> exists i w, nth_error (wks s) i = Some w /\ wp w = WDone (OErr x).
 Proof.
-  cbn. intros Ecp. destruct (run_inv es) as (_ & _ & _ & _ & Hcp). rewrite Ecp in Hcp. destruct Hcp as (HR & _).
+  intros (_ & _ & _ & _ & Hcp) Ecp. rewrite Ecp in Hcp. destruct Hcp as (HR & _).
   destruct (nd_pos_exists _ _ HR) as (i & w & o & G & Ep & Ho). apply is_err_eq in Ho. subst o. now exists i, w.
 Qed.
 
@@ -376,14 +373,14 @@ Qed.
    then, the result is a non-Canceled error -- unless the caller's context is cancelled and the result is Canceled *)
 Ltac noret := let E := fresh "E" in intros E; first [congruence | discriminate | rewrite E in *; discriminate].
 
-Theorem fn_error_not_masked es e o :
-  let s := run es in let s' := step s e in
+Lemma fn_error_not_masked_inv s e o : Inv s ->
+  let s' := step s e in
   is_ret (cp s) = false -> cp s' = CRet o ->
   (exists i w x, nth_error (wks s') i = Some w /\ (wp w = WRet (OErr x) \/ wp w = WDone (OErr x))) ->
   is_real o = true \/ (o = OCanc /\ cctx s' = true).
 Proof.
-  cbn. intros Hnr Ecp' (i & w & x & G & Hw). destruct (run_inv es) as (_ & _ & _ & _ & Hcp).
-  revert Ecp' G. set (s := run es) in *. destruct e as [fs| |j|v|j o'|]; unfold step, step_gen.
+  cbn. intros (_ & _ & _ & _ & Hcp) Hnr Ecp' (i & w & x & G & Hw).
+  revert Ecp' G. destruct e as [fs| |j|v|j o'|]; unfold step, step_gen.
   - destruct (cp s) as [| |k ch|ch| |r e0 ch| |o0] eqn:Ecp; try noret. destruct Hcp as (Hwk & _).
     destruct fs as [|f [|f2 fs]]; flds.
     + unfold ret; flds. rewrite Hwk. intros _ G. destruct i; discriminate.
@@ -419,11 +416,10 @@ Proof.
 Qed.
 
 (* clause 4 *)
-Theorem canceled_only_if_ctx_or_fn_canceled es :
-  let s := run es in
+Lemma canceled_only_if_ctx_or_fn_canceled_inv s : Inv s ->
   cp s = CRet OCanc -> cctx s = true \/ exists i w, nth_error (wks s) i = Some w /\ wp w = WDone OCanc.
 Proof.
-  cbn. intros Ecp. destruct (run_inv es) as (_ & _ & _ & _ & Hcp). rewrite Ecp in Hcp. destruct Hcp as ([HR|HR] & _); [now left | right].
+  intros (_ & _ & _ & _ & Hcp) Ecp. rewrite Ecp in Hcp. destruct Hcp as ([HR|HR] & _); [now left | right].
   destruct (nd_pos_exists _ _ HR) as (i & w & o & G & Ep & Ho). destruct o; try discriminate. now exists i, w.
 Qed.
 
@@ -440,8 +436,8 @@ Theorem canceled_if_fn_canceled es o :
   o = OCanc.
 Proof.
   cbn. intros Ecp Hall (i & w & G & Ep). destruct o as [| |x]; [|reflexivity|].
-  - destruct (nil_only_if_all_nil es Ecp i w G) as [H|H]; congruence.
-  - destruct (error_is_some_fn_error es x Ecp) as (j & w' & G' & Ep').
+  - destruct (nil_only_if_all_nil_inv _ (run_inv es) Ecp i w G) as [H|H]; congruence.
+  - destruct (error_is_some_fn_error_inv _ x (run_inv es) Ecp) as (j & w' & G' & Ep').
     destruct (Hall j w' G') as [H|(o' & H & Hr)]; [congruence|]. rewrite Ep' in H. inversion H; subst o'. discriminate.
 Qed.
 
@@ -453,8 +449,7 @@ Proof. cbn. destruct (run_inv es) as (_ & _ & H1 & H2 & _). now split. Qed.
 
 (* clause 6: at quiescence a caller blocked in its select has a function still inside user code, no recorded
    non-Canceled error, and its context is not cancelled; a caller inside the single function: that function has not returned *)
-Theorem caller_quiescent es :
-  let s := run es in
+Lemma caller_quiescent_inv s : Inv s ->
   quiescent s = true ->
   (forall ch, cp s = CSelect ch ->
      cctx s = false /\
@@ -462,7 +457,7 @@ Theorem caller_quiescent es :
      (forall i w x, nth_error (wks s) i = Some w -> wp w <> WDone (OErr x))) /\
   (cp s = CInline -> wks s = [{| wp := WInFn; went := 1 |}]).
 Proof.
-  cbn. intros Hq. destruct (run_inv es) as (_ & _ & _ & _ & Hcp). set (s := run es) in *.
+  intros (_ & _ & _ & _ & Hcp) Hq.
   unfold quiescent in Hq. apply andb_true_iff in Hq as [Hq Hq3]. apply andb_true_iff in Hq as [Hq1 Hq2].
   split; [|intros Ecp; now rewrite Ecp in Hcp].
   intros ch Ecp. rewrite Ecp in Hcp. destruct Hcp as (_ & (HP1 & HP2 & HP3) & _ & Hch).
@@ -487,6 +482,45 @@ Proof.
     destruct HIn as [[Ho [H|H]]|H]; rewrite Hw in H; inversion H; subst; cbn; auto.
 Qed.
 
+
+Theorem each_nonnil_fn_once es :
+  let s := run es in
+  (forall i w, nth_error (wks s) i = Some w -> went w <= 1 /\ (wp w = WNone -> went w = 0)) /\
+  (forall o i w, cp s = CRet o -> nth_error (wks s) i = Some w -> wp w <> WNone -> went w = 1).
+Proof. exact (each_nonnil_fn_once_inv _ (run_inv es)). Qed.
+
+Theorem nil_only_if_all_nil es :
+  let s := run es in
+  cp s = CRet ONil -> forall i w, nth_error (wks s) i = Some w -> wp w = WNone \/ wp w = WDone ONil.
+Proof. exact (nil_only_if_all_nil_inv _ (run_inv es)). Qed.
+
+Theorem error_is_some_fn_error es x :
+  let s := run es in
+  cp s = CRet (OErr x) -> exists i w, nth_error (wks s) i = Some w /\ wp w = WDone (OErr x).
+Proof. exact (error_is_some_fn_error_inv _ x (run_inv es)). Qed.
+
+Theorem fn_error_not_masked es e o :
+  let s := run es in let s' := step s e in
+  is_ret (cp s) = false -> cp s' = CRet o ->
+  (exists i w x, nth_error (wks s') i = Some w /\ (wp w = WRet (OErr x) \/ wp w = WDone (OErr x))) ->
+  is_real o = true \/ (o = OCanc /\ cctx s' = true).
+Proof. exact (fn_error_not_masked_inv _ e o (run_inv es)). Qed.
+
+Theorem canceled_only_if_ctx_or_fn_canceled es :
+  let s := run es in
+  cp s = CRet OCanc -> cctx s = true \/ exists i w, nth_error (wks s) i = Some w /\ wp w = WDone OCanc.
+Proof. exact (canceled_only_if_ctx_or_fn_canceled_inv _ (run_inv es)). Qed.
+
+Theorem caller_quiescent es :
+  let s := run es in
+  quiescent s = true ->
+  (forall ch, cp s = CSelect ch ->
+     cctx s = false /\
+     (exists i w, nth_error (wks s) i = Some w /\ wp w = WInFn) /\
+     (forall i w x, nth_error (wks s) i = Some w -> wp w <> WDone (OErr x))) /\
+  (cp s = CInline -> wks s = [{| wp := WInFn; went := 1 |}]).
+Proof. exact (caller_quiescent_inv _ (run_inv es)). Qed.
+
 (* ---- D12: the pinned check (shared counter read after the spawn section) returns nil although a function failed ---- *)
 Theorem pinned_refuted :
   let s := run_pinned d12_witness in
@@ -497,3 +531,360 @@ Proof. vm_compute. split; [reflexivity|]. eexists. split; reflexivity. Qed.
 Theorem witness_repaired :
   cp (run d12_witness) = CSelect 0 /\ cp (run (d12_witness ++ [Wake false; StepC; StepC])) = CRet (OErr 0).
 Proof. vm_compute. split; reflexivity. Qed.
+
+(* ------------------------------------------------------------------ *)
+(* the monitors accept every trace of the model (ties Spec.mon to the model) *)
+From Util Require Import CCall.Spec.
+
+Definition outc (w : wk) : N := match wp w with WRet o | WDone o => code_out o | _ => 0%N end.
+Definition cxf (s : st) (w : wk) : N := if Nat.ltb 0 (went w) && subc s then 1%N else 0%N.
+Definition wrow (s : st) (w : wk) : row := ((nonnil w, outc w), (wstat w, N.of_nat (went w), cxf s w)).
+
+(* monitor state vs model state *)
+Definition R (s : st) (m : mst) : Prop :=
+  mfs m = map nonnil (wks s) /\ mouts m = map outc (wks s) /\ mcanc m = cctx s /\ mret m = is_ret (cp s).
+
+Lemma chunk3_flat s l : chunk3 (flat_map (wobs s) l) = map (fun w => (wstat w, N.of_nat (went w), cxf s w)) l.
+Proof. induction l as [|h t IH]; [reflexivity|]. cbn [flat_map map]. unfold wobs at 1. cbn [app chunk3]. now rewrite IH. Qed.
+
+Lemma combine_map2 {A B C} (f : A -> B) (g : A -> C) l : combine (map f l) (map g l) = map (fun x => (f x, g x)) l.
+Proof. induction l as [|h t IH]; [reflexivity|]. cbn. now rewrite IH. Qed.
+
+Lemma rows_eq s m : R s m -> combine (combine (mfs m) (mouts m)) (chunk3 (skipn 2 (obs s))) = map (wrow s) (wks s).
+Proof.
+  intros (H1 & H2 & _). rewrite H1, H2. unfold obs. cbn [skipn]. now rewrite chunk3_flat, !combine_map2.
+Qed.
+
+Lemma existsb_map {A B} (f : B -> bool) (g : A -> B) l : existsb f (map g l) = existsb (fun x => f (g x)) l.
+Proof. induction l as [|h t IH]; [reflexivity|]. cbn. now rewrite IH. Qed.
+Lemma forallb_map {A B} (f : B -> bool) (g : A -> B) l : forallb f (map g l) = forallb (fun x => f (g x)) l.
+Proof. induction l as [|h t IH]; [reflexivity|]. cbn. now rewrite IH. Qed.
+Lemma existsb_all_false {A} (f : A -> bool) l : (forall x, In x l -> f x = false) -> existsb f l = false.
+Proof.
+  intros H. destruct (existsb f l) eqn:E; [|reflexivity]. apply existsb_exists in E as (x & Hx & Hf).
+  rewrite (H x Hx) in Hf. discriminate.
+Qed.
+
+Lemma code_out_pos o : code_out o <> 0%N.
+Proof. destruct o; cbn [code_out]; lia. Qed.
+Lemma code_out_real o : N.leb 3 (code_out o) = is_real o.
+Proof. destruct o; cbn [code_out is_real]; [reflexivity | reflexivity |]. apply N.leb_le. lia. Qed.
+Lemma code_out_inj o o' : code_out o = code_out o' -> o = o'.
+Proof. destruct o, o'; cbn [code_out]; intros H; try lia; try reflexivity. f_equal. lia. Qed.
+Lemma dec_code oc o : dec_out oc = Some o -> code_out o = oc.
+Proof.
+  unfold dec_out. destruct (N.eqb_spec oc 0); [discriminate|]. destruct (N.eqb_spec oc 1); [intros H; inversion H; now subst|].
+  destruct (N.eqb_spec oc 2); intros H; inversion H; subst; cbn [code_out]; [reflexivity | lia].
+Qed.
+
+Lemma cretc_ret p : negb (N.eqb (cretc p) 0) = is_ret p.
+Proof. destruct p; try reflexivity. cbn [cretc is_ret]. pose proof (code_out_pos o). now destruct (N.eqb_spec (code_out o) 0). Qed.
+
+(* worker-level facts, with In *)
+Lemma in_went_le s w : Inv s -> In w (wks s) -> went w <= 1.
+Proof.
+  intros HI Hin. apply In_nth_error in Hin as (i & G). exact (proj1 (proj1 (each_nonnil_fn_once_inv s HI) i w G)).
+Qed.
+Lemma in_ret_went s o w : Inv s -> cp s = CRet o -> In w (wks s) -> nonnil w = true -> went w = 1.
+Proof.
+  intros HI E Hin Hn. apply In_nth_error in Hin as (i & G). apply (proj2 (each_nonnil_fn_once_inv s HI) o i w E G).
+  intros Hp. unfold nonnil in Hn. rewrite Hp in Hn. discriminate.
+Qed.
+Lemma in_retnil_outc s w : Inv s -> cp s = CRet ONil -> In w (wks s) -> nonnil w = true -> outc w = 1%N.
+Proof.
+  intros HI E Hin Hn. apply In_nth_error in Hin as (i & G). destruct (nil_only_if_all_nil_inv s HI E i w G) as [Hp|Hp].
+  - unfold nonnil in Hn. rewrite Hp in Hn. discriminate.
+  - unfold outc. now rewrite Hp.
+Qed.
+
+(* ---- structure of a harness-level step ---- *)
+Lemma step_ret_stable s e o : cp s = CRet o -> cp (step s e) = CRet o.
+Proof.
+  intros E. destruct e as [fs| |i|v|i o'|]; unfold step, step_gen.
+  - now rewrite E.
+  - now rewrite E.
+  - destruct (nth_error (wks s) i) as [w|]; [|exact E]. destruct (wp w); flds; exact E.
+  - now rewrite E.
+  - destruct (nth_error (wks s) i) as [w|]; [|exact E]. destruct (wp w); try exact E. rewrite E. flds. reflexivity.
+  - flds. exact E.
+Qed.
+
+Lemma settle_cases c s : settle c s = s \/ exists b, settle c s = step s (Wake b).
+Proof.
+  unfold settle. destruct (cp s); auto. destruct (cctx s && closed (bb s) ch); [right; eauto|].
+  destruct (cctx s); [right; eauto|]. destruct (closed (bb s) ch); [right; eauto | now left].
+Qed.
+
+Lemma wake_same s b : wks (step s (Wake b)) = wks s /\ cctx (step s (Wake b)) = cctx s /\ bb (step s (Wake b)) = bb s.
+Proof.
+  unfold step, step_gen, ret, setcp. destruct (cp s); auto. destruct b.
+  - destruct (cctx s) eqn:Ec; flds; auto.
+  - destruct (closed (bb s) ch) eqn:Ecl; flds; auto.
+Qed.
+
+Lemma settle_same c s : wks (settle c s) = wks s /\ cctx (settle c s) = cctx s.
+Proof. destruct (settle_cases c s) as [->|[b ->]]; [auto|]. destruct (wake_same s b) as (H1 & H2 & _). auto. Qed.
+
+Lemma settle_inv c s : Inv s -> Inv (settle c s).
+Proof. intros HI. destruct (settle_cases c s) as [->|[b ->]]; [exact HI | now apply step_inv]. Qed.
+
+Lemma settle_ready c s : c_ready (settle c s) = false.
+Proof.
+  unfold settle. destruct (cp s) eqn:E; try (unfold c_ready; rewrite E; reflexivity).
+  destruct (cctx s) eqn:Ec; destruct (closed (bb s) ch) eqn:Ecl; cbn [andb].
+  - destruct (N.eqb c 1); unfold step, step_gen; rewrite E, ?Ec, ?Ecl; reflexivity.
+  - unfold step, step_gen. rewrite E, Ec. reflexivity.
+  - unfold step, step_gen. rewrite E, Ecl. reflexivity.
+  - unfold c_ready. rewrite E, Ec, Ecl. reflexivity.
+Qed.
+
+Lemma settle_ret c s o : cp s = CRet o -> settle c s = s.
+Proof. intros E. unfold settle. now rewrite E. Qed.
+
+Lemma settle_ret_stable c s : is_ret (cp s) = true -> is_ret (cp (settle c s)) = true.
+Proof. destruct (cp s) eqn:E; try discriminate. intros _. rewrite (settle_ret c s o E), E. reflexivity. Qed.
+
+(* at the harness-level step at which the call returns *)
+Lemma hstep_moment s e c o :
+  Inv s -> is_ret (cp s) = false ->
+  let s' := settle c (step s e) in
+  cp s' = CRet o ->
+  (exists i w x, nth_error (wks s') i = Some w /\ (wp w = WRet (OErr x) \/ wp w = WDone (OErr x))) ->
+  is_real o = true \/ (o = OCanc /\ cctx s' = true).
+Proof.
+  cbn. intros HI Hnr. set (s1 := step s e). destruct (is_ret (cp s1)) eqn:E1.
+  - destruct (cp s1) as [| | | | | | |o1] eqn:Ecp1; try discriminate. rewrite (settle_ret c s1 o1 Ecp1).
+    subst s1. now apply fn_error_not_masked_inv.
+  - destruct (settle_cases c s1) as [->|[b ->]].
+    + intros E. rewrite E in E1. discriminate.
+    + apply fn_error_not_masked_inv; [now apply step_inv | exact E1].
+Qed.
+
+(* ---- the monitor's state follows the model ---- *)
+Lemma map_set_nth {A B} (f : A -> B) l i v : map f (set_nth l i v) = set_nth (map f l) i (f v).
+Proof. revert i; induction l as [|h t IH]; intros [|i]; cbn; auto. now rewrite IH. Qed.
+Lemma set_nth_same {A} (l : list A) i w : nth_error l i = Some w -> set_nth l i w = l.
+Proof. revert i; induction l as [|h t IH]; intros [|i] G; cbn in *; try discriminate. - now inversion G. - now rewrite IH. Qed.
+Lemma map_set_nth_same {A B} (f : A -> B) l i w v : nth_error l i = Some w -> f v = f w -> map f (set_nth l i v) = map f l.
+Proof. intros G E. rewrite map_set_nth, E. apply set_nth_same. now apply map_nth_error. Qed.
+
+Definition RW (s : st) (m : mst) : Prop :=
+  mfs m = map nonnil (wks s) /\ mouts m = map outc (wks s) /\ mcanc m = cctx s.
+
+Lemma mkw_maps bs : map nonnil (map mkw bs) = bs /\ map outc (map mkw bs) = map (fun _ => 0%N) bs.
+Proof. induction bs as [|b t [IH1 IH2]]; [auto|]. cbn [map]. rewrite IH1, IH2. now destruct b. Qed.
+
+Lemma call_wks s bs : cp s = CIdle -> wks s = [] ->
+  let s1 := step s (Call bs) in
+  map nonnil (wks s1) = bs /\ map outc (wks s1) = map (fun _ => 0%N) bs /\ cctx s1 = cctx s.
+Proof.
+  intros E Hw. cbn. unfold step, step_gen. rewrite E. destruct bs as [|b [|b2 bs]].
+  - unfold ret; flds. rewrite Hw. auto.
+  - destruct b; flds; auto.
+  - flds. destruct (mkw_maps (b :: b2 :: bs)) as [H1 H2]. auto.
+Qed.
+
+Lemma stepc_maps s :
+  map nonnil (wks (step s StepC)) = map nonnil (wks s) /\ map outc (wks (step s StepC)) = map outc (wks s) /\
+  cctx (step s StepC) = cctx s.
+Proof.
+  unfold step, step_gen, ret, setcp. destruct (cp s); auto.
+  - destruct (getch (bb s)). flds. rewrite !map_map. repeat split; apply map_ext; intros [p q]; now destruct p.
+  - destruct (Nat.eqb k 0); flds; auto.
+  - destruct (getch (bb s)). flds. auto.
+  - destruct (Nat.eqb r 0 || is_real e); flds; auto.
+Qed.
+
+Lemma RW_step s m e ev c : Inv s -> RW s m -> decode s e = Some (ev, c) -> RW (settle c (step s ev)) (mev m e).
+Proof.
+  intros HI (H1 & H2 & H3) D. destruct (settle_same c (step s ev)) as [S1 S2]. unfold RW. rewrite S1, S2.
+  unfold decode in D. unfold mev. destruct (parse e) as [[fs|a c'|i oc|]|]; try discriminate.
+  - destruct (cp s) eqn:E; try discriminate. destruct (forallb (fun f => N.leb f 1) fs); [|discriminate].
+    inversion D; subst ev c. destruct HI as (_ & _ & _ & _ & Hcp). rewrite E in Hcp. destruct Hcp as (Hw & _).
+    destruct (call_wks s (map (N.eqb 1) fs) E Hw) as (C1 & C2 & C3). cbn [mfs mouts mcanc].
+    rewrite C1, C2, C3, map_map. auto.
+  - destruct (N.eqb a 0).
+    + destruct (c_at_gate (cp s)); [|discriminate]. inversion D; subst ev c.
+      destruct (stepc_maps s) as (C1 & C2 & C3). rewrite C1, C2, C3. auto.
+    + destruct (nth_error (wks s) (pred (N.to_nat a))) as [w|] eqn:G; [|discriminate].
+      destruct (w_at_gate w) eqn:Eg; [|discriminate]. inversion D; subst ev c.
+      unfold w_at_gate in Eg. destruct (wp w) as [| | |o|o] eqn:Ep; try discriminate.
+      unfold step, step_gen. rewrite G, Ep. flds.
+      rewrite (map_set_nth_same nonnil _ _ w _ G), (map_set_nth_same outc _ _ w _ G); auto.
+      * unfold outc. cbn [wp]. now rewrite Ep.
+      * unfold nonnil. cbn [wp]. now rewrite Ep.
+  - destruct (dec_out oc) as [o|] eqn:Ed; [|discriminate].
+    destruct (nth_error (wks s) (N.to_nat i)) as [w|] eqn:G; [|discriminate].
+    destruct (wp w) eqn:Ep; try discriminate. inversion D; subst ev c. cbn [mfs mouts mcanc].
+    apply dec_code in Ed. unfold step, step_gen. rewrite G, Ep.
+    assert (Hn : forall p, p = WRet o \/ p = WDone o ->
+                 map nonnil (set_nth (wks s) (N.to_nat i) {| wp := p; went := went w |}) = map nonnil (wks s)).
+    { intros p Hp. apply (map_set_nth_same nonnil _ _ w _ G). unfold nonnil. cbn [wp]. rewrite Ep. destruct Hp as [-> | ->]; reflexivity. }
+    assert (Ho : forall p, p = WRet o \/ p = WDone o ->
+                 map outc (set_nth (wks s) (N.to_nat i) {| wp := p; went := went w |}) = set_nth (map outc (wks s)) (N.to_nat i) oc).
+    { intros p Hp. rewrite map_set_nth. f_equal. unfold outc. cbn [wp]. destruct Hp as [-> | ->]; exact Ed. }
+    destruct (cp s); flds; rewrite ?Hn, ?Ho, H1, H2; auto.
+  - destruct (cctx s); [discriminate|]. inversion D; subst ev c. unfold step, step_gen. flds. cbn [mfs mouts mcanc]. auto.
+Qed.
+
+Lemma rows_eq' s m : RW s m -> combine (combine (mfs m) (mouts m)) (chunk3 (skipn 2 (obs s))) = map (wrow s) (wks s).
+Proof.
+  intros (H1 & H2 & _). rewrite H1, H2. unfold obs. cbn [skipn]. now rewrite chunk3_flat, !combine_map2.
+Qed.
+
+(* ---- the six clauses are false on the model's own observations ---- *)
+Lemma cl1_ok s first : Inv s -> cl1 first (cretc (cp s)) (map (wrow s) (wks s)) = false.
+Proof.
+  intros HI. unfold cl1. rewrite !existsb_map. apply orb_false_iff. split.
+  - apply existsb_all_false. intros w Hin. unfold wrow, r_ent. cbn [fst snd].
+    pose proof (in_went_le s w HI Hin). apply N.ltb_ge. lia.
+  - destruct first; [|reflexivity]. cbn [andb]. destruct (N.eqb_spec (cretc (cp s)) 1) as [E|E]; [|reflexivity]. cbn [andb].
+    destruct (cp s) as [| | | | | | |o] eqn:Ecp; try discriminate. cbn [cretc] in E.
+    apply existsb_all_false. intros w Hin. unfold wrow, r_fn, r_ent. cbn [fst snd].
+    destruct (nonnil w) eqn:En; [|reflexivity]. rewrite (in_ret_went s o w HI Ecp Hin En). reflexivity.
+Qed.
+
+Lemma cl2_ok s first : Inv s -> cl2 first (cretc (cp s)) (map (wrow s) (wks s)) = false.
+Proof.
+  intros HI. unfold cl2. rewrite existsb_map. destruct first; [|reflexivity]. cbn [andb].
+  destruct (N.eqb_spec (cretc (cp s)) 1) as [E|E]; [|reflexivity]. cbn [andb].
+  destruct (cp s) as [| | | | | | |o] eqn:Ecp; try discriminate. cbn [cretc] in E.
+  assert (o = ONil) by (apply code_out_inj; exact E). subst o.
+  apply existsb_all_false. intros w Hin. unfold wrow, r_fn, r_out. cbn [fst snd].
+  destruct (nonnil w) eqn:En; [|reflexivity]. rewrite (in_retnil_outc s w HI Ecp Hin En). reflexivity.
+Qed.
+
+Lemma outc_real w : N.leb 3 (outc w) = true -> exists x, wp w = WRet (OErr x) \/ wp w = WDone (OErr x).
+Proof.
+  unfold outc. destruct (wp w) as [| | |o|o]; try discriminate; rewrite code_out_real; destruct o; try discriminate; eauto.
+Qed.
+
+Lemma cl3_ok s first :
+  Inv s ->
+  (first = true -> forall o, cp s = CRet o ->
+     (exists i w x, nth_error (wks s) i = Some w /\ (wp w = WRet (OErr x) \/ wp w = WDone (OErr x))) ->
+     is_real o = true \/ (o = OCanc /\ cctx s = true)) ->
+  cl3 first (cretc (cp s)) (cctx s) (map outc (wks s)) = false.
+Proof.
+  intros HI HM. unfold cl3. destruct first; [|reflexivity]. cbn [andb]. specialize (HM eq_refl).
+  apply orb_false_iff. split.
+  - destruct (N.leb 3 (cretc (cp s))) eqn:E3; [|reflexivity]. cbn [andb]. apply negb_false_iff.
+    destruct (cp s) as [| | | | | | |o] eqn:Ecp; try discriminate. cbn [cretc] in *. rewrite code_out_real in E3.
+    destruct o as [| |x]; try discriminate.
+    destruct (error_is_some_fn_error_inv s x HI Ecp) as (i & w & G & Ep).
+    apply existsb_exists. exists (code_out (OErr x)). split; [|apply N.eqb_refl].
+    apply filter_In. split; [|now rewrite code_out_real]. apply in_map_iff. exists w. split; [|eapply nth_error_In; eauto].
+    unfold outc. now rewrite Ep.
+  - destruct (filter (N.leb 3) (map outc (wks s))) as [|y t] eqn:EF; [reflexivity|]. cbn [negb andb].
+    assert (Hy : In y (filter (N.leb 3) (map outc (wks s)))) by (rewrite EF; now left).
+    apply filter_In in Hy as [Hy1 Hy2]. apply in_map_iff in Hy1 as (w & Hw & Hin). subst y.
+    destruct (outc_real w Hy2) as (x & Hx). apply In_nth_error in Hin as (i & G).
+    destruct (cp s) as [| | | | | | |o] eqn:Ecp; try reflexivity. cbn [cretc].
+    destruct (HM o eq_refl (ex_intro _ i (ex_intro _ w (ex_intro _ x (conj G Hx))))) as [Hr|[Ho Hc]].
+    + destruct o; try discriminate. cbn [code_out]. apply orb_false_iff. split; [apply N.eqb_neq; lia|].
+      apply andb_false_iff. left. apply N.eqb_neq. lia.
+    + subst o. rewrite Hc. reflexivity.
+Qed.
+
+Lemma cl4_ok s first : Inv s -> cl4 first (cretc (cp s)) (cctx s) (map outc (wks s)) = false.
+Proof.
+  intros HI. unfold cl4. destruct first; [|reflexivity]. cbn [andb].
+  destruct (N.eqb_spec (cretc (cp s)) 2) as [E|E]; [|reflexivity]. cbn [andb].
+  destruct (cp s) as [| | | | | | |o] eqn:Ecp; try discriminate. cbn [cretc] in E.
+  assert (o = OCanc) by (apply code_out_inj; exact E). subst o. apply negb_false_iff.
+  destruct (canceled_only_if_ctx_or_fn_canceled_inv s HI Ecp) as [Hc|(i & w & G & Ep)]; [now rewrite Hc|].
+  apply orb_true_iff. right. apply existsb_exists. exists 2%N. split; [|reflexivity].
+  apply in_map_iff. exists w. split; [unfold outc; now rewrite Ep | eapply nth_error_In; eauto].
+Qed.
+
+Lemma cl5_ok s : Inv s -> cl5 (cretc (cp s)) (map (wrow s) (wks s)) = false.
+Proof.
+  intros HI. unfold cl5. rewrite cretc_ret, existsb_map. destruct (is_ret (cp s)) eqn:Er; [|reflexivity]. cbn [andb].
+  destruct HI as (_ & _ & Hrs & _). specialize (Hrs Er).
+  apply existsb_all_false. intros w _. unfold wrow, r_ent, r_cx, cxf. cbn [fst snd]. rewrite Hrs, andb_true_r.
+  destruct (went w) as [|k]; [reflexivity|]. change (Nat.ltb 0 (S k)) with true. cbn [N.eqb Pos.eqb negb]. apply andb_false_r.
+Qed.
+
+Lemma cl6_ok s : Inv s -> c_ready s = false ->
+  cl6 (cstat (cp s)) (cctx s) (length (map nonnil (wks s))) (map (wrow s) (wks s)) = false.
+Proof.
+  intros HI Hnr. unfold cl6. rewrite !existsb_map, forallb_map, map_length.
+  assert (H9 : N.eqb (cstat (cp s)) 9 = false) by (destruct (cp s); reflexivity). rewrite H9. cbn [orb].
+  destruct (N.eqb_spec (cstat (cp s)) 2) as [E2|E2]; [|now rewrite andb_false_r].
+  destruct (existsb (fun x => N.eqb (r_stat (wrow s x)) 1) (wks s)) eqn:Eg; [now rewrite !andb_false_r|].
+  assert (Hq : quiescent s = true).
+  { unfold quiescent. rewrite Hnr. cbn [negb]. rewrite andb_true_r. apply andb_true_iff. split.
+    - destruct (cp s); try discriminate; reflexivity.
+    - apply forallb_forall. intros w Hin. apply negb_true_iff.
+      destruct (w_at_gate w) eqn:Ew; [|reflexivity]. exfalso.
+      assert (existsb (fun x => N.eqb (r_stat (wrow s x)) 1) (wks s) = true); [|congruence].
+      apply existsb_exists. exists w. split; [exact Hin|]. unfold wrow, r_stat, wstat. cbn [fst snd].
+      unfold w_at_gate in Ew. destruct (wp w); try discriminate. reflexivity. }
+  destruct (caller_quiescent_inv s HI Hq) as [HS HL].
+  rewrite E2. cbn [N.eqb negb andb Pos.eqb].
+  destruct (cp s) as [| | |ch| | | |] eqn:Ecp; try discriminate.
+  - destruct (HS ch eq_refl) as (Hc & (i & w & G & Ep) & Hne).
+    destruct HI as (_ & _ & _ & _ & Hcp). rewrite Ecp in Hcp. destruct Hcp as (Hlen & _).
+    destruct (Nat.leb_spec (length (wks s)) 1) as [Hl|Hl]; [lia|]. rewrite Hc. cbn [orb].
+    apply orb_false_iff. split.
+    + destruct (forallb (fun x => negb (r_fn (wrow s x)) || N.eqb (r_stat (wrow s x)) 4) (wks s)) eqn:EA; [|reflexivity].
+      rewrite forallb_forall in EA. specialize (EA w (nth_error_In _ _ G)).
+      unfold wrow, r_fn, r_stat, nonnil, wstat in EA. cbn [fst snd] in EA. rewrite Ep in EA. discriminate.
+    + apply existsb_all_false. intros w' Hin. unfold wrow, r_stat, r_out, wstat, outc. cbn [fst snd].
+      destruct (wp w') as [| | |o|o] eqn:Ep'; try reflexivity. cbn [N.eqb Pos.eqb andb]. rewrite code_out_real.
+      destruct o as [| |x]; try reflexivity. apply In_nth_error in Hin as (j & G'). exfalso. exact (Hne j w' x G' Ep').
+  - rewrite (HL eq_refl). reflexivity.
+Qed.
+
+(* one harness-level step: the monitors report nothing and keep following the model *)
+Lemma mon_step s m e ev c :
+  Inv s -> RW s m -> mret m = is_ret (cp s) -> decode s e = Some (ev, c) ->
+  let s' := settle c (step s ev) in
+  snd (mon m e (obs s')) = [] /\ RW s' (fst (mon m e (obs s'))) /\ mret (fst (mon m e (obs s'))) = is_ret (cp s').
+Proof.
+  intros HI HR Hmr D. cbn zeta. set (s' := settle c (step s ev)).
+  pose proof (RW_step s m e ev c HI HR D) as HR'. fold s' in HR'.
+  assert (HI' : Inv s') by (apply settle_inv, step_inv, HI).
+  assert (Hnr : c_ready s' = false) by apply settle_ready.
+  unfold mon. rewrite (rows_eq' s' _ HR'). destruct HR' as (R1 & R2 & R3).
+  change (nth 0 (obs s') 0%N) with (cstat (cp s')). change (nth 1 (obs s') 0%N) with (cretc (cp s')).
+  cbn [fst snd mfs mouts mcanc mret]. rewrite R1, R2, R3.
+  rewrite cl1_ok, cl2_ok, cl4_ok, cl5_ok, cl6_ok by assumption. rewrite cl3_ok; [| assumption |].
+  - repeat split; auto. rewrite cretc_ret, Hmr. destruct (is_ret (cp s)) eqn:Er; [|reflexivity].
+    cbn [orb]. symmetry. apply settle_ret_stable. destruct (cp s) eqn:Ecp; try discriminate.
+    now rewrite (step_ret_stable s ev o Ecp).
+  - intros Hf o Ecp Hex. apply andb_true_iff in Hf as [Hf _]. rewrite Hmr in Hf. apply negb_true_iff in Hf.
+    exact (hstep_moment s ev c o HI Hf Ecp Hex).
+Qed.
+
+Lemma monitor_nil evs : forall s m i,
+  Inv s -> RW s m -> mret m = is_ret (cp s) -> monitor mon i m [] evs (run_obs hstep s evs) = [].
+Proof.
+  induction evs as [|e evs IH]; intros s m i HI HR Hmr; [reflexivity|].
+  cbn [run_obs]. unfold hstep at 1. destruct (decode s e) as [[ev c]|] eqn:D; [|reflexivity].
+  destruct (mon_step s m e ev c HI HR Hmr D) as (M1 & M2 & M3). cbn zeta in *.
+  cbn [monitor]. destruct (mon m e (obs (settle c (step s ev)))) as [m' fails]. cbn [fst snd] in *. subst fails.
+  cbn [filter map app]. apply IH; auto. apply settle_inv, step_inv, HI.
+Qed.
+
+(* for every event list: on the observations the model itself produces (up to the first event it rejects) the
+   monitors report nothing *)
+Theorem model_satisfies_monitors evs : monitor mon 0 minit [] evs (run_obs hstep init evs) = [].
+Proof. apply monitor_nil; [apply init_inv | repeat split | reflexivity]. Qed.
+
+(* and if the model accepts every event, the whole check of the model against itself is clean *)
+Lemma list_eqb_refl o : list_eqb o o = true.
+Proof. induction o as [|x o IH]; [reflexivity | cbn; now rewrite N.eqb_refl]. Qed.
+
+Lemma replay_self evs : forall s i,
+  length (run_obs hstep s evs) = length evs -> replay hstep i s evs (run_obs hstep s evs) = [].
+Proof.
+  induction evs as [|e evs IH]; intros s i Hl; [reflexivity|]. cbn [run_obs replay] in *.
+  destruct (hstep s e) as [[s' o]|]; [|discriminate]. rewrite list_eqb_refl. apply IH. cbn [length] in Hl. lia.
+Qed.
+
+Theorem model_run_check_clean cfg evs :
+  length (run_obs hstep init evs) = length evs -> run_check_ccall cfg evs (run_obs hstep init evs) = [].
+Proof.
+  intros Hl. unfold run_check_ccall, run_check. rewrite replay_self by exact Hl. apply model_satisfies_monitors.
+Qed.
